@@ -50,7 +50,7 @@ impl FeatureTryFromTrait {
                     type Error = ();
 
                     #[inline]
-                    fn try_from(value: #repr) -> ::core::result::Result<Self, Self::Error> {
+                    fn try_from(value: #repr) -> ::core::result::Result<Self, ()> {
                         use ::core::result::Result::{Err, Ok};
                         if (value as #repr) >= (Self::#ident_min as #repr) && (value as #repr) <= (Self::#ident_max as #repr) {
                             // Safety: the number is known to be a valid enum
@@ -66,7 +66,7 @@ impl FeatureTryFromTrait {
                 impl ::core::convert::TryFrom<#repr> for #ident_enum {
                     type Error = ();
 
-                    fn try_from(value: #repr) -> ::core::result::Result<Self, Self::Error> {
+                    fn try_from(value: #repr) -> ::core::result::Result<Self, ()> {
                         use ::core::result::Result::{Err, Ok};
                         if (value as #repr) >= (Self::#ident_min as #repr) && (value as #repr) <= (Self::#ident_max as #repr) {
                             for r in Self::#ident_table_range {
